@@ -151,6 +151,9 @@ structure RejectedNoop (g g' : G) (t repl : Nat) : Prop where
 theorem RejectedNoop.refl (g : G) (t repl : Nat) : RejectedNoop g g t repl :=
   ⟨rfl, fun _ h => h, Or.inl rfl, fun _ => ⟨rfl, rfl⟩⟩
 
+theorem asPanicString_cls (e : Rej) : (asPanicString e).cls = e.cls := by
+  unfold asPanicString; split <;> rfl
+
 /-- mocker.go:90 `applyByFunc` (Apply / Return / When of functions and methods all end here): a rejection is either
     raised before `replaceFunc` — then the state is untouched — or inside it, with the guarantees of
     `replaceFunc_rejected`.  In particular `guard.Apply()` (the only writer of a jump) is never reached. -/
@@ -180,7 +183,7 @@ theorem applyByFunc_rejected (g g' : G) (tg : Target) (cb : V) (o : OriginV) (re
           simp only [h3, Prod.mk.injEq, Except.error.injEq] at h
           obtain ⟨rfl, rfl⟩ := h
           have ⟨a, b, c, d, f⟩ := replaceFunc_rejected _ _ _ _ _ _ _ h3
-          refine ⟨⟨a, ?_, Or.inr c, d⟩, Or.inr f⟩
+          refine ⟨⟨a, ?_, Or.inr c, d⟩, Or.inr (by rw [asPanicString_cls]; exact f)⟩
           intro x hx
           cases hm : mocked g1 x with
           | false => rfl
@@ -389,7 +392,7 @@ theorem callback_mistake_rejected (g : G) (tg : Target) (cb : V) (o : OriginV) (
   | error e1 => exact ⟨e1, rfl⟩
   | ok tr =>
     cases h2 : patchValueChecks (.fn tg.sig) cb with
-    | error e2 => exact ⟨e2, rfl⟩
+    | error e2 => exact ⟨asPanicString e2, rfl⟩
     | ok u =>
       have ⟨s, hs, he⟩ := patchValueChecks_ok _ _ h2
       exact absurd ((signatureEquals_ok_iff _ _).1 he) (hbad s hs)
@@ -623,7 +626,7 @@ theorem walk_not_wrapper : ∀ (c : List ErrT), c ≠ [] → c.getLast? ≠ some
 /-- **a rejected call at any point of a configuration sequence** (`Return/When/Returns/AndReturn/In/Matches/Apply`, on the
     handle or through a repeated lookup; functions and methods): the image, the registry and what the entry jumps to are
     as `RejectedNoop` says — in particular a first `Returns(..)` whose value list is bad is rejected BEFORE `doApply`
-    (mocker.go:334/597), and a call that only adds matchers never touches the image at all. -/
+    (the value lists are checked before `m.whens`), and a call that only adds matchers never touches the image at all. -/
 theorem seqStep_rejected (tg : Target) (isM : Bool) (repl : Nat) (ms ms' : MS) (st : Step) (e : Rej)
     (h : seqStep tg isM repl ms st = (ms', .error e)) :
     RejectedNoop ms.g ms'.g tg.id repl ∧ ms'.imp = ms.imp := by
@@ -660,7 +663,7 @@ theorem seqStep_rejected (tg : Target) (isM : Bool) (repl : Nat) (ms ms' : MS) (
         obtain ⟨rfl, _⟩ := h
         exact ⟨RejectedNoop.refl _ _ _, rfl⟩
       · split at h
-        · -- filling the When (Returns) failed: m.when is set, nothing applied
+        · -- filling the When (Returns) failed: nothing is kept, nothing applied
           simp only [Prod.mk.injEq, Except.error.injEq] at h
           obtain ⟨rfl, _⟩ := h
           exact ⟨RejectedNoop.refl _ _ _, rfl⟩
@@ -803,5 +806,332 @@ theorem iface_non_pointer_container_rejected (k : Kind) (name : String) (m c : S
   have h0 : ifaceMethod (.value k true) name true = .ok () := by
     simp [ifaceMethod, hn, hk, pure, Except.pure]
   simp [ifaceCall, h0, applyIface, hc, hctx, rej, walk]
+
+/-! ## G. The cause chain, once and for all: every rejection of every producer
+
+`Rej.shape` lists the chain shapes per class; `Lemmas/C13L.lean` shows that every function of `Model/Reject.lean` that
+can reject (`sigOf`, `signatureEquals`, `checkTrampolineFunc`, `patchValueChecks`, `replaceFunc`, `applyByFunc`,
+`addResult`, `newDefaultMatch`, `checkParams`, `createWhen`, `whenReturn`, `createWS`, `wWhen`, `wReturn`, `wAndReturn`,
+`wReturns`, `wIn`, `wMatches`, `whenStep`, `lookupCheck`, `nonFuncCall`, `exportCall`, `ifaceMethod`, `ifaceSignature`,
+`applyIface`) only produces those shapes. -/
+
+theorem shape_sound (r : Rej) (h : r.shape = true) :
+    wellFormed r.chain = true ∧
+    ∃ e, walk r.chain = some e ∧ e ≠ .traceable ∧ typedEnd r.cls e = true ∧
+      (isStrCls r.cls = true → r.chain = [.str]) := by
+  obtain ⟨cls, chain⟩ := r
+  unfold Rej.shape at h
+  simp only at h
+  split at h
+  · rename_i _ e
+    have hne : e ≠ .traceable := by
+      intro hh; subst hh
+      cases cls <;> simp [typedEnd, isStrCls, isPatchCls] at h
+    refine ⟨by simp [wellFormed, hne], e, rfl, hne, h, ?_⟩
+    intro hs
+    simp only at hs
+    simp [typedEnd, hs] at h
+    simp [h]
+  · simp only [beq_iff_eq] at h; subst h
+    exact ⟨rfl, .plain, rfl, by simp, rfl, by simp [isStrCls]⟩
+  · simp only [beq_iff_eq] at h; subst h
+    exact ⟨rfl, .illegalParamType, rfl, by simp, rfl, by simp [isStrCls]⟩
+  · rename_i _ c
+    simp only [Bool.and_eq_true, beq_iff_eq] at h
+    obtain ⟨h1, h2⟩ := h; subst h1
+    refine ⟨?_, .illegalParam, rfl, by simp, rfl, by simp [isStrCls]⟩
+    cases c <;> simp [isTypedInner] at h2 <;> rfl
+  · simp at h
+
+
+theorem funcCall_shape (g : G) (tg : Target) (pre : Beh) (o : OriginV) (repl : Nat) (act : Action) (e : Rej)
+    (h : (funcCall g tg pre o repl act).res = .error e) : e.shape = true := by
+  cases act with
+  | apply cb =>
+    simp only [funcCall] at h
+    cases h1 : applyByFunc g tg cb o repl with
+    | mk g1 r => simp only [h1] at h; subst h; exact applyByFunc_shape _ _ _ _ _ _ _ h1
+  | ret vals =>
+    simp only [funcCall] at h
+    cases h0 : createWhen tg.sig none (firstReturnValues vals) false with
+    | error e0 => simp only [h0, Except.error.injEq] at h; subst h; exact good_createWhen _ _ _ _ _ h0
+    | ok w =>
+      simp only [h0] at h
+      cases h1 : applyByFunc g tg (.fn tg.sig) o repl with
+      | mk g1 r => simp only [h1] at h; subst h; exact applyByFunc_shape _ _ _ _ _ _ _ h1
+  | when_ args ret =>
+    simp only [funcCall] at h
+    cases h0 : createWhen tg.sig args none false with
+    | error e0 => simp only [h0, Except.error.injEq] at h; subst h; exact good_createWhen _ _ _ _ _ h0
+    | ok w =>
+      simp only [h0] at h
+      cases h1 : applyByFunc g tg (.fn tg.sig) o repl with
+      | mk g1 r =>
+        cases r with
+        | error e1 => simp only [h1, Except.error.injEq] at h; subst h; exact applyByFunc_shape _ _ _ _ _ _ _ h1
+        | ok u =>
+          simp only [h1] at h
+          cases ret with
+          | none => simp [pure, Except.pure] at h
+          | some vals =>
+            simp only at h
+            cases h2 : whenReturn w tg.sig vals with
+            | error e2 => simp only [h2, Except.error.injEq] at h; subst h; exact good_whenReturn _ _ _ _ h2
+            | ok w2 => simp [h2, pure, Except.pure] at h
+
+theorem methodCall_shape (g : G) (name : String) (found : Bool) (tg : Target) (repl : Nat) (act : Action) (e : Rej)
+    (h : (methodCall g name found tg repl act).res = .error e) : e.shape = true := by
+  unfold methodCall at h
+  by_cases hn : name = ""
+  · simp only [hn, if_true, rStr, rej, Except.error.injEq] at h; subst h; rfl
+  · by_cases hf : found = true
+    · simp only [hn, hf, if_false, Bool.not_true, Bool.false_eq_true] at h
+      cases act with
+      | apply cb =>
+        simp only at h
+        cases h1 : applyByFunc g tg cb .none repl with
+        | mk g1 r => simp only [h1] at h; subst h; exact applyByFunc_shape _ _ _ _ _ _ _ h1
+      | ret vals =>
+        simp only at h
+        cases h0 : createWhen tg.sig none (firstReturnValues vals) true with
+        | error e0 => simp only [h0, Except.error.injEq] at h; subst h; exact good_createWhen _ _ _ _ _ h0
+        | ok w =>
+          simp only [h0] at h
+          cases h1 : applyByFunc g tg (.fn tg.sig) .none repl with
+          | mk g1 r => simp only [h1] at h; subst h; exact applyByFunc_shape _ _ _ _ _ _ _ h1
+      | when_ args ret =>
+        simp only at h
+        cases h0 : createWhen tg.sig args none true with
+        | error e0 => simp only [h0, Except.error.injEq] at h; subst h; exact good_createWhen _ _ _ _ _ h0
+        | ok w =>
+          simp only [h0] at h
+          cases h1 : applyByFunc g tg (.fn tg.sig) .none repl with
+          | mk g1 r =>
+            cases r with
+            | error e1 => simp only [h1, Except.error.injEq] at h; subst h; exact applyByFunc_shape _ _ _ _ _ _ _ h1
+            | ok u =>
+              simp only [h1] at h
+              cases ret with
+              | none => simp [pure, Except.pure] at h
+              | some vals =>
+                simp only at h
+                cases h2 : whenReturn w tg.sig vals with
+                | error e2 => simp only [h2, Except.error.injEq] at h; subst h; exact good_whenReturn _ _ _ _ h2
+                | ok w2 => simp [h2, pure, Except.pure] at h
+    · simp only [hn, hf, if_false, Bool.not_false, if_true, rStr, rej, Except.error.injEq] at h; subst h; rfl
+
+theorem ifaceCall_shape (v : IfaceVar) (name : String) (found : Bool) (m : Sig) (act : IfaceAction) (e : Rej) (b : Bool)
+    (h : ifaceCall v name found m act = (.error e, b)) : e.shape = true := by
+  unfold ifaceCall at h
+  cases h0 : ifaceMethod v name found with
+  | error e0 => simp only [h0, Prod.mk.injEq, Except.error.injEq] at h; obtain ⟨rfl, _⟩ := h; exact good_ifaceMethod _ _ _ _ h0
+  | ok u =>
+    simp only [h0] at h
+    cases act with
+    | apply cb =>
+      simp only at h
+      cases h1 : applyIface v m cb with
+      | error e1 => simp only [h1, Prod.mk.injEq, Except.error.injEq] at h; obtain ⟨rfl, _⟩ := h; exact good_applyIface _ _ _ _ h1
+      | ok u1 => simp [h1, pure, Except.pure] at h
+    | asRet fn vals =>
+      simp only at h
+      cases h1 : createWhen fn none (firstReturnValues vals) true with
+      | error e1 => simp only [h1, Prod.mk.injEq, Except.error.injEq] at h; obtain ⟨rfl, _⟩ := h; exact good_createWhen _ _ _ _ _ h1
+      | ok w =>
+        simp only [h1] at h
+        cases h2 : applyIface v m (.fn fn) with
+        | error e2 => simp only [h2, Prod.mk.injEq, Except.error.injEq] at h; obtain ⟨rfl, _⟩ := h; exact good_applyIface _ _ _ _ h2
+        | ok u2 => simp [h2, pure, Except.pure] at h
+    | asWhen fn args ret =>
+      simp only at h
+      cases h1 : createWhen fn args none true with
+      | error e1 => simp only [h1, Prod.mk.injEq, Except.error.injEq] at h; obtain ⟨rfl, _⟩ := h; exact good_createWhen _ _ _ _ _ h1
+      | ok w =>
+        simp only [h1] at h
+        cases h2 : applyIface v m (.fn fn) with
+        | error e2 => simp only [h2, Prod.mk.injEq, Except.error.injEq] at h; obtain ⟨rfl, _⟩ := h; exact good_applyIface _ _ _ _ h2
+        | ok u2 =>
+          simp only [h2] at h
+          cases ret with
+          | none => simp [pure, Except.pure] at h
+          | some vals =>
+            simp only at h
+            cases h3 : whenReturn w fn vals with
+            | error e3 => simp only [h3, Prod.mk.injEq, Except.error.injEq] at h; obtain ⟨rfl, _⟩ := h; exact good_whenReturn _ _ _ _ h3
+            | ok w3 => simp [h3, pure, Except.pure] at h
+
+theorem seqStep_shape (tg : Target) (isM : Bool) (repl : Nat) (ms ms' : MS) (st : Step) (e : Rej)
+    (h : seqStep tg isM repl ms st = (ms', .error e)) : e.shape = true := by
+  cases st with
+  | again => simp [seqStep, pure, Except.pure] at h
+  | asFn f => simp [seqStep, pure, Except.pure] at h
+  | lookup name found =>
+    simp only [seqStep, Prod.mk.injEq] at h
+    exact good_lookupCheck _ _ _ h.2
+  | apply cb =>
+    simp only [seqStep] at h
+    cases h1 : applyByFunc ms.g tg cb .none repl with
+    | mk g1 r =>
+      cases r with
+      | error e1 => simp only [h1, Prod.mk.injEq, Except.error.injEq] at h; obtain ⟨_, rfl⟩ := h; exact applyByFunc_shape _ _ _ _ _ _ _ h1
+      | ok u => simp [h1, pure, Except.pure] at h
+  | ret _ | when_ _ _ | returns _ | andReturn _ | in_ _ | matchPairs _ =>
+    simp only [seqStep] at h
+    cases hw : ms.when with
+    | some w =>
+      simp only [hw] at h
+      have h2 := congrArg Prod.snd h
+      simp only at h2
+      exact whenStep_shape _ _ _ _ _ _ (Prod.ext rfl h2)
+    | none =>
+      simp only [hw] at h
+      split at h
+      · rename_i e1 h1
+        simp only [Prod.mk.injEq, Except.error.injEq] at h; obtain ⟨_, rfl⟩ := h
+        first
+          | exact good_createWS _ _ _ _ _ _ h1
+          | (simp only [rStr, rej, Except.error.injEq] at h1; subst h1; rfl)
+      · split at h
+        · rename_i w0 _ _ e1 h1
+          simp only [Prod.mk.injEq, Except.error.injEq] at h; obtain ⟨_, rfl⟩ := h
+          first
+            | exact wReturns_shape _ _ _ _ _ _ h1
+            | (simp [pure, Except.pure] at h1)
+        · split at h
+          · rename_i g1 e1 h1
+            simp only [Prod.mk.injEq, Except.error.injEq] at h; obtain ⟨_, rfl⟩ := h
+            exact applyByFunc_shape _ _ _ _ _ _ _ h1
+          · simp [pure, Except.pure] at h
+
+theorem ifaceSeqStep_shape (m : Sig) (s s' : IS) (st : Step) (e : Rej)
+    (h : ifaceSeqStep m s st = (s', .error e)) : e.shape = true := by
+  cases st with
+  | again => simp [ifaceSeqStep, pure, Except.pure] at h
+  | asFn f => simp [ifaceSeqStep, pure, Except.pure] at h
+  | lookup name found =>
+    simp only [ifaceSeqStep, Prod.mk.injEq] at h
+    exact good_lookupCheck _ _ _ h.2
+  | apply cb =>
+    simp only [ifaceSeqStep] at h
+    split at h
+    · rename_i e1 h1
+      simp only [Prod.mk.injEq, Except.error.injEq] at h; obtain ⟨_, rfl⟩ := h
+      exact good_applyIface _ _ _ _ h1
+    · simp [pure, Except.pure] at h
+  | ret _ | when_ _ _ | returns _ | andReturn _ | in_ _ | matchPairs _ =>
+    simp only [ifaceSeqStep] at h
+    cases hw : s.when with
+    | some w =>
+      simp only [hw] at h
+      have h2 := congrArg Prod.snd h
+      simp only at h2
+      exact whenStep_shape _ _ _ _ _ _ (Prod.ext rfl h2)
+    | none =>
+      simp only [hw] at h
+      split at h
+      · rename_i e1 h1
+        simp only [Prod.mk.injEq, Except.error.injEq] at h; obtain ⟨_, rfl⟩ := h
+        first
+          | exact good_createWS _ _ _ _ _ _ h1
+          | (simp only [rStr, rej, Except.error.injEq] at h1; subst h1; rfl)
+          | (simp only [bind, Except.bind] at h1
+             split at h1
+             · rename_i e2 h2; simp only [Except.error.injEq] at h1; subst h1; exact good_createWS _ _ _ _ _ _ h2
+             · split at h1
+               · simp [pure, Except.pure] at h1
+               · rename_i w1 e2 h3; simp only [Except.error.injEq] at h1; subst h1; exact wReturns_shape _ _ _ _ _ _ h3)
+      · split at h
+        · rename_i e1 h1
+          simp only [Prod.mk.injEq, Except.error.injEq] at h; obtain ⟨_, rfl⟩ := h
+          exact good_applyIface _ _ _ _ h1
+        · simp [pure, Except.pure] at h
+
+/-- every way a configuration call of the model can be rejected -/
+inductive Produced : Rej → Prop
+  | func (g : G) (tg : Target) (pre : Beh) (o : OriginV) (repl : Nat) (act : Action) (e : Rej) :
+      (funcCall g tg pre o repl act).res = .error e → Produced e
+  | nonFunc (k : Kind) (e : Rej) : nonFuncCall k = .error e → Produced e
+  | method (g : G) (name : String) (found : Bool) (tg : Target) (repl : Nat) (act : Action) (e : Rej) :
+      (methodCall g name found tg repl act).res = .error e → Produced e
+  | export_ (form : ExportForm) (a b c : Bool) (e : Rej) : exportCall form a b c = .error e → Produced e
+  | iface (v : IfaceVar) (name : String) (found : Bool) (m : Sig) (act : IfaceAction) (e : Rej) (b : Bool) :
+      ifaceCall v name found m act = (.error e, b) → Produced e
+  | seq (tg : Target) (isM : Bool) (repl : Nat) (ms ms' : MS) (st : Step) (e : Rej) :
+      seqStep tg isM repl ms st = (ms', .error e) → Produced e
+  | ifaceSeq (m : Sig) (s s' : IS) (st : Step) (e : Rej) : ifaceSeqStep m s st = (s', .error e) → Produced e
+
+theorem produced_shape (r : Rej) (h : Produced r) : r.shape = true := by
+  cases h with
+  | func g tg pre o repl act e h => exact funcCall_shape _ _ _ _ _ _ _ h
+  | nonFunc k e h => exact good_nonFuncCall _ _ h
+  | method g name found tg repl act e h => exact methodCall_shape _ _ _ _ _ _ _ h
+  | export_ form a b c e h => exact good_exportCall _ _ _ _ _ h
+  | iface v name found m act e b h => exact ifaceCall_shape _ _ _ _ _ _ _ h
+  | seq tg isM repl ms ms' st e h => exact seqStep_shape _ _ _ _ _ _ _ h
+  | ifaceSeq m s s' st e h => exact ifaceSeqStep_shape _ _ _ _ _ h
+
+/-! ### the Go side: what the probe (and erro.Cause) does with the error value -/
+
+/-- the probe's chain listing followed by the model's `walk` is the Go walk -/
+theorem probe_walk_eq_model_walk : ∀ e : GoErr, walk (probeChain e) = some (erroWalk e)
+  | .leaf t => by simp [probeChain, walk, erroWalk]
+  | .wrap t c => by
+    have ih := probe_walk_eq_model_walk c
+    cases hpc : probeChain c with
+    | nil => cases c <;> simp [probeChain] at hpc <;> split at hpc <;> simp at hpc
+    | cons x xs =>
+      rw [hpc] at ih
+      cases t <;> simp [probeChain, exposesCause, erroWalk, walk, hpc, ih]
+
+/-- `erro.Cause` on the Go value is the model's `cause` on the listed chain -/
+theorem probe_cause_eq_model_cause (e : GoErr) :
+    (erroCause e).map probeChain = cause (probeChain e) := by
+  cases e with
+  | leaf t => simp [erroCause, probeChain, cause]
+  | wrap t c =>
+    cases hpc : probeChain c with
+    | nil => cases c <;> simp [probeChain] at hpc <;> split at hpc <;> simp at hpc
+    | cons x xs => cases t <;> simp [erroCause, probeChain, exposesCause, cause, hpc]
+
+theorem toGo_probeChain : ∀ (c : List ErrT), wellFormed c = true → ∃ g, toGo c = some g ∧ probeChain g = c
+  | [], h => by simp [wellFormed] at h
+  | [t], _ => ⟨.leaf t, rfl, rfl⟩
+  | t :: u :: rest, h => by
+    simp only [wellFormed, Bool.and_eq_true] at h
+    have ⟨g, hg, hp⟩ := toGo_probeChain (u :: rest) h.2
+    exact ⟨.wrap t g, by simp [toGo, hg], by simp [probeChain, h.1, hp]⟩
+
+
+/-- **The cause-chain clause, for every rejection of every producer.**  Whatever configuration call is rejected
+    (`Produced r`):
+    * the chain is well formed — every element but the last is of a type that stores its cause, so each wrapper's cause
+      is the next element, and it denotes a Go error value `g` whose chain as the probe lists it is exactly `r.chain`;
+    * the `erro.Cause` walk over `g` (erro/traceable.go:16) terminates at a node `e` that is not a wrapper
+      (`*TraceableError`);
+    * `e` is the typed cause assigned to the class (`typedEnd`): `*ArgsNotMatch`, `*ReturnsNotMatch`, `*IllegalParam`,
+      `*IllegalParamType`, the reflect / runtime panic, the plain lookup error — or the panic STRING for the classes
+      of `isStrCls`, whose chain then is exactly `[str]`;
+    * and the model's `walk` computes the same node. -/
+theorem every_rejection_walks_to_its_typed_cause (r : Rej) (h : Produced r) :
+    wellFormed r.chain = true ∧
+    ∃ (g : GoErr) (e : ErrT), toGo r.chain = some g ∧ probeChain g = r.chain ∧
+      erroWalk g = e ∧ walk r.chain = some e ∧ e ≠ .traceable ∧ typedEnd r.cls e = true ∧
+      (isStrCls r.cls = true → r.chain = [.str]) := by
+  have ⟨hw, e, hwalk, hne, hty, hstr⟩ := shape_sound r (produced_shape r h)
+  have ⟨g, hg, hp⟩ := toGo_probeChain r.chain hw
+  refine ⟨hw, g, e, hg, hp, ?_, hwalk, hne, hty, hstr⟩
+  have := probe_walk_eq_model_walk g
+  rw [hp, hwalk] at this
+  exact (Option.some.inj this).symm
+
+/-- non-vacuous: an interface callback with one parameter too many is `Produced`, its chain has three nodes, and the walk
+    stops at `*IllegalParam` -/
+example :
+    let i : Ty := ⟨.int, 8, 25, false, 0⟩
+    let c : Ty := ⟨.ptr, 8, idMockerICtx, false, 0⟩
+    let r : Rej := ⟨.illegalParam, [.traceable, .illegalParam, .argsNotMatch 3 2]⟩
+    Produced r ∧ walk r.chain = some .illegalParam := by
+  refine ⟨Produced.iface .ptrIface "A" true ⟨[⟨.int, 8, 25, false, 0⟩], [⟨.int, 8, 25, false, 0⟩], false, default⟩
+    (.apply (.fn ⟨[⟨.ptr, 8, idMockerICtx, false, 0⟩, ⟨.int, 8, 25, false, 0⟩, ⟨.int, 8, 25, false, 0⟩], [⟨.int, 8, 25, false, 0⟩], false, default⟩)) _ false rfl, rfl⟩
 
 end C13
